@@ -27,7 +27,7 @@ func TestMain(m *testing.M) { vfx.Main(m) }
 
 type Act struct {
 	AtMs int    // offset from the start of the (first) suspicion
-	Kind string // confirm | refute | resuspect | dead | leave
+	Kind string // confirm | refute | resuspect | dead | leave | rejoin
 	From int    // confirm/resuspect/dead: peer index; -1 original accuser; -2 local node; -3 the subject; -4 unknown name
 	Old  bool   `json:",omitempty"` // confirm at an older incarnation (must be ignored)
 }
@@ -98,7 +98,7 @@ func genPlan(t *rapid.T) Plan {
 	last := 0
 	for i := 0; i < na; i++ {
 		a := Act{}
-		a.Kind = rapid.SampledFrom([]string{"confirm", "confirm", "confirm", "confirm", "confirm", "refute", "resuspect", "dead", "leave"}).Draw(t, "kind")
+		a.Kind = rapid.SampledFrom([]string{"confirm", "confirm", "confirm", "confirm", "confirm", "refute", "resuspect", "resuspect", "dead", "leave", "rejoin", "rejoin"}).Draw(t, "kind")
 		var at int
 		switch rapid.IntRange(0, 3).Draw(t, "how") {
 		case 0:
@@ -158,7 +158,7 @@ func run(pl Plan) (res vfx.Result) {
 	fail := func(f string, a ...any) vfx.Result { res.Err = fmt.Errorf(f, a...); return done() }
 	interval := time.Duration(pl.IntervalMs) * time.Millisecond
 	conf := puppet.NodeConf{Name: "n0", IP: "10.0.0.1", Port: 7946, SuspicionMult: pl.Mult, SuspicionMaxMult: pl.MaxMult,
-		ProbeIntervalMs: pl.IntervalMs, ProbeTimeoutMs: pl.IntervalMs / 2, IndirectChecks: 0, DisableTcpPings: true, GossipToDeadMs: 3600000}
+		ProbeIntervalMs: pl.IntervalMs, ProbeTimeoutMs: pl.IntervalMs / 2, IndirectChecks: 0, DisableTcpPings: true, GossipToDeadMs: 3600000, ReclaimMs: 1}
 	p, err := puppet.New(pl.Seed, conf)
 	if err != nil {
 		return fail("create: %v", err)
@@ -173,6 +173,8 @@ func run(pl Plan) (res vfx.Result) {
 		parts = append(parts, puppet.Claim{Kind: "alive", Node: pe.Name, Inc: 1, Addr: pe.IPBytes(), Port: 7946, Vsn: vsn}.Leaf())
 	}
 	x := p.AddPeer("x", "10.0.3.1", 7946, vsn)
+	xalt := p.AddPeer("x-alt", "10.0.3.2", 7946, vsn) // where the name lives after a take-over
+	xalt.Name = "x"
 	parts = append(parts, puppet.Claim{Kind: "alive", Node: "x", Inc: 1, Addr: x.IPBytes(), Port: 7946, Vsn: vsn}.Leaf())
 	src := "10.0.9.9:7946"
 	for i := 0; i < len(parts); i += 20 {
@@ -192,6 +194,7 @@ func run(pl Plan) (res vfx.Result) {
 	if pl.Own {
 		accuser = "n0"
 		x.AckPings, x.AckTCP = false, false
+		xalt.AckPings, xalt.AckTCP = false, false
 		var mu sync.Mutex
 		var tp time.Duration = -1
 		p.Net.OnEvent = func(e simnet.Event) {
@@ -256,9 +259,22 @@ func run(pl Plan) (res vfx.Result) {
 	c := 0
 	deadline := suspStart + m.timeout(0) // model: instant at which the timer fires
 	suspected := true
-	var expectDeath time.Duration = -1 // model's death instant
-	cause := ""
+	isDead := false
+	type death struct {
+		at    time.Duration
+		cause string
+		susp  time.Duration // start of the suspicion that caused a timer death
+	}
+	var expect []death
+	var lastDeath time.Duration
+	lastLeft := false
+	die := func(at time.Duration, cause string) {
+		expect = append(expect, death{at, cause, suspStart})
+		suspected, isDead = false, true
+		lastDeath, lastLeft = at, cause == "leave"
+	}
 	nConfirm := 0
+	curAddr := x.IPBytes()
 	for _, a := range pl.Script {
 		at := start + time.Duration(a.AtMs)*time.Millisecond + 500*time.Microsecond // send instant
 		if pl.Own {
@@ -268,101 +284,112 @@ func run(pl Plan) (res vfx.Result) {
 			at = now // the act is due already (the harness was busy observing): it is sent now
 		}
 		arr := at + lat
-		if expectDeath >= 0 {
-			break
-		}
 		if suspected && arr >= deadline {
-			expectDeath, cause = deadline, "timer"
-			break
+			die(deadline, "timer")
 		}
 		if w := at - p.Net.Now(); w > 0 {
 			time.Sleep(w)
 		}
 		from := fromName(a.From)
+		countConfirm := func() {
+			nConfirm++
+			if c < m.k && !confirmed[from] {
+				confirmed[from] = true
+				c++
+				nd := suspStart + m.timeout(c)
+				if nd <= arr {
+					die(arr, "confirmation drove the timer to zero")
+				} else {
+					deadline = nd
+				}
+				labels["counted-confirmation"] = true
+			} else if confirmed[from] {
+				labels["duplicate-or-accuser"] = true
+			} else {
+				labels["beyond-k"] = true
+			}
+		}
+		newSuspicion := func() {
+			suspected = true
+			suspStart = arr
+			confirmed = map[string]bool{from: true}
+			c = 0
+			deadline = suspStart + m.timeout(0)
+			labels["resuspicion"] = true
+		}
 		switch a.Kind {
-		case "confirm":
+		case "confirm", "resuspect":
 			inc := curInc
-			if a.Old {
+			if a.Kind == "confirm" && a.Old {
 				if curInc == 0 {
 					continue
 				}
 				inc = curInc - 1
 			}
 			p.Net.SendFrom(src, p.Addr(), p.Outer(puppet.Claim{Kind: "suspect", Node: "x", Inc: inc, From: from}.Leaf()))
-			if suspected && !a.Old {
-				nConfirm++
-				if c < m.k && !confirmed[from] {
-					confirmed[from] = true
-					c++
-					nd := suspStart + m.timeout(c)
-					if nd <= arr {
-						expectDeath, cause = arr, "confirmation drove the timer to zero"
-					} else {
-						deadline = nd
-					}
-					labels["counted-confirmation"] = true
-				} else if confirmed[from] {
-					labels["duplicate-or-accuser"] = true
-				} else {
-					labels["beyond-k"] = true
-				}
-			} else if !suspected && !a.Old {
-				// a suspect claim while the subject is alive at this incarnation starts a new suspicion
-				suspected = true
-				suspStart = arr
-				confirmed = map[string]bool{from: true}
-				c = 0
-				deadline = suspStart + m.timeout(0)
-				labels["resuspicion"] = true
+			switch {
+			case isDead || inc != curInc:
+				// a suspicion about a dead/left record, or at an older incarnation, is ignored
+			case suspected:
+				countConfirm()
+			default:
+				newSuspicion()
 			}
-			logf("+%dms confirm from %s inc %d -> c=%d deadline +%v", a.AtMs, from, inc, c, deadline-start)
+			logf("+%dms %s from %s inc %d -> suspected=%v c=%d deadline +%v", a.AtMs, a.Kind, from, inc, suspected, c, deadline-start)
 		case "refute":
+			// alive at the next incarnation from the current address: refutes a suspicion, or brings a dead record back
 			curInc++
-			p.Net.SendFrom(x.Addr(), p.Addr(), p.Outer(puppet.Claim{Kind: "alive", Node: "x", Inc: curInc, Addr: x.IPBytes(), Port: 7946, Vsn: vsn}.Leaf()))
-			suspected = false
-			labels["refuted"] = true
-			logf("+%dms refute -> inc %d", a.AtMs, curInc)
-		case "resuspect":
-			p.Net.SendFrom(src, p.Addr(), p.Outer(puppet.Claim{Kind: "suspect", Node: "x", Inc: curInc, From: from}.Leaf()))
-			if !suspected {
-				suspected = true
-				suspStart = arr
-				confirmed = map[string]bool{from: true}
-				c = 0
-				deadline = suspStart + m.timeout(0)
-				labels["resuspicion"] = true
+			p.Net.SendFrom(x.Addr(), p.Addr(), p.Outer(puppet.Claim{Kind: "alive", Node: "x", Inc: curInc, Addr: curAddr, Port: 7946, Vsn: vsn}.Leaf()))
+			if isDead {
+				labels["rejoined-newer"] = true
 			} else {
-				nConfirm++
-				if c < m.k && !confirmed[from] {
-					confirmed[from] = true
-					c++
-					nd := suspStart + m.timeout(c)
-					if nd <= arr {
-						expectDeath, cause = arr, "confirmation drove the timer to zero"
-					} else {
-						deadline = nd
-					}
-				}
+				labels["refuted"] = true
 			}
-			logf("+%dms resuspect from %s -> deadline +%v", a.AtMs, from, deadline-start)
+			suspected, isDead = false, false
+			logf("+%dms alive inc %d", a.AtMs, curInc)
+		case "rejoin":
+			// the name is taken over from another address at the SAME incarnation (allowed after a leave, or
+			// after a death once the 1 ms reclaim time has passed): a pending timer of the old life must not
+			// act on the new one
+			if !isDead {
+				continue
+			}
+			if !lastLeft && arr-lastDeath < 2*time.Millisecond {
+				continue // a failed (not departed) holder can only be replaced once the reclaim time (1 ms) has passed
+			}
+			if curAddr[3] == 1 {
+				curAddr = []byte{10, 0, 3, 2}
+			} else {
+				curAddr = []byte{10, 0, 3, 1}
+			}
+			p.Net.SendFrom(src, p.Addr(), p.Outer(puppet.Claim{Kind: "alive", Node: "x", Inc: curInc, Addr: curAddr, Port: 7946, Vsn: vsn}.Leaf()))
+			suspected, isDead = false, false
+			labels["rejoined-same-incarnation"] = true
+			logf("+%dms rejoin from %v at the same incarnation %d", a.AtMs, curAddr, curInc)
 		case "dead":
 			if from == "x" {
 				from = "acc"
 			}
 			p.Net.SendFrom(src, p.Addr(), p.Outer(puppet.Claim{Kind: "dead", Node: "x", Inc: curInc, From: from}.Leaf()))
-			expectDeath, cause = arr, "foreign death claim"
+			if !isDead {
+				die(arr, "foreign death claim")
+			}
 		case "leave":
 			p.Net.SendFrom(src, p.Addr(), p.Outer(puppet.Claim{Kind: "left", Node: "x", Inc: curInc}.Leaf()))
-			expectDeath, cause = arr, "leave"
+			if !isDead {
+				die(arr, "leave")
+			}
 		}
 	}
-	if expectDeath < 0 && suspected {
-		expectDeath, cause = deadline, "timer"
+	if suspected {
+		die(deadline, "timer")
 	}
 	// run past the last possible instant
-	end := start + m.max + time.Duration(0)
-	if expectDeath > end {
-		end = expectDeath
+	end := start + m.max
+	for _, d := range expect {
+		if d.at > end {
+			end = d.at
+		}
 	}
 	for _, a := range pl.Script {
 		if t := start + time.Duration(a.AtMs)*time.Millisecond + m.max; t > end {
@@ -373,17 +400,17 @@ func run(pl Plan) (res vfx.Result) {
 		time.Sleep(w)
 	}
 	p.Settle()
-	// in own-evidence mode the subject keeps failing probes; a refuted subject is suspected again by the
-	// node itself, which the script model does not follow: such plans are checked up to the refutation only
-	var leaveAt time.Duration = -1
-	for _, e := range p.Rec.Events() {
-		if e.Name == "x" && e.Kind == "leave" && leaveAt < 0 {
-			leaveAt = e.T
-		}
-	}
-	if pl.Own && labels["refuted"] {
-		labels["own-evidence-refuted-unchecked"] = true
+	// in own-evidence mode the subject keeps failing probes; once it is alive again (refuted, rejoined) the
+	// node suspects it again by itself, which the script model does not follow: such plans are not checked
+	if pl.Own && (labels["refuted"] || labels["rejoined-newer"] || labels["rejoined-same-incarnation"]) {
+		labels["own-evidence-alive-again-unchecked"] = true
 		return done()
+	}
+	var leaves []time.Duration
+	for _, e := range p.Rec.Events() {
+		if e.Name == "x" && e.Kind == "leave" {
+			leaves = append(leaves, e.T)
+		}
 	}
 	labels[fmt.Sprintf("k=%d", m.k)] = true
 	if pl.Own {
@@ -391,37 +418,46 @@ func run(pl Plan) (res vfx.Result) {
 	} else {
 		labels["injected"] = true
 	}
-	if expectDeath < 0 {
+	if len(expect) == 0 {
 		labels["outcome:survives"] = true
-		if leaveAt >= 0 {
-			return fail("the subject was refuted and never suspected again, yet the node dropped it at +%v (start %v)\n%v", leaveAt-start, start, hist)
-		}
-		if !contains(p.MemberNames(), "x") {
-			return fail("the subject should still be a member: %v", p.MemberNames())
-		}
-	} else {
-		labels["outcome:"+cause] = true
-		if leaveAt < 0 {
-			return fail("model: the subject is dropped at +%v (%s), but the node still lists it at +%v (k=%d min=%v max=%v)\n%v", expectDeath-start, cause, p.Net.Now()-start, m.k, m.min, m.max, hist)
-		}
-		diff := leaveAt - expectDeath
+	}
+	if len(leaves) != len(expect) {
+		return fail("the node dropped the subject %d time(s) at %v (relative to the start %v), the model expects %d: %+v; k=%d min=%v max=%v n=%d\n%v", len(leaves), rel(leaves, start), start, len(expect), relD(expect, start), m.k, m.min, m.max, pl.Peers+2, hist)
+	}
+	if isDead == contains(p.MemberNames(), "x") {
+		return fail("at the end the model says dead=%v, Members() = %v", isDead, p.MemberNames())
+	}
+	for i, d := range expect {
+		labels["outcome:"+d.cause] = true
+		diff := leaves[i] - d.at
 		if diff < -time.Millisecond || diff > time.Millisecond {
-			return fail("the node dropped the subject at +%v, the model says +%v (%s); k=%d min=%v max=%v n=%d, %d confirmations counted\n%v",
-				leaveAt-start, expectDeath-start, cause, m.k, m.min, m.max, pl.Peers+2, c, hist)
+			return fail("drop #%d: the node dropped the subject at +%v, the model says +%v (%s); k=%d min=%v max=%v n=%d\n%v", i, leaves[i]-start, d.at-start, d.cause, m.k, m.min, m.max, pl.Peers+2, hist)
 		}
-		if cause == "timer" || cause == "confirmation drove the timer to zero" {
+		if d.cause == "timer" || d.cause == "confirmation drove the timer to zero" {
 			// hard bounds, independent of the schedule model (relative to the suspicion that killed it)
-			if leaveAt < suspStart+m.min-time.Millisecond {
-				return fail("dropped after %v, before the minimum suspicion timeout %v", leaveAt-suspStart, m.min)
+			if leaves[i] < d.susp+m.min-time.Millisecond {
+				return fail("dropped %v after the suspicion began, before the minimum suspicion timeout %v\n%v", leaves[i]-d.susp, m.min, hist)
 			}
-			if leaveAt > suspStart+m.max+time.Millisecond {
-				return fail("dropped after %v, later than the maximum suspicion timeout %v", leaveAt-suspStart, m.max)
+			if leaves[i] > d.susp+m.max+time.Millisecond {
+				return fail("dropped %v after the suspicion began, later than the maximum suspicion timeout %v", leaves[i]-d.susp, m.max)
 			}
 		}
 	}
 	res.NonTrivial = nConfirm > 0
 	res.Sub = map[string]int64{"confirmations": int64(nConfirm)}
 	return done()
+}
+
+func rel(ts []time.Duration, start time.Duration) []time.Duration {
+	var o []time.Duration
+	for _, t := range ts {
+		o = append(o, t-start)
+	}
+	return o
+}
+
+func relD[T any](ds []T, start time.Duration) string {
+	return fmt.Sprintf("%+v (absolute; start %v)", ds, start)
 }
 
 func contains(s []string, x string) bool {
